@@ -218,6 +218,9 @@ func Main(c *Check, tb *testing.T) int {
 		fmt.Printf("run %d digest=%s violations=%d tape_len=%d %s\n", i, res.digest, len(res.viol), len(res.tape), res.crashed)
 		return ExitOK
 	}
+	if os.Getenv("VERIF_RACE") != "" {
+		return raceMain(c, tier, master, tb)
+	}
 	n := c.Runs(tier)
 	if v := envInt("VERIF_RUNS", 0); v > 0 {
 		n = v
@@ -760,4 +763,33 @@ func writeEvidence(c *Check, tier string, master uint64, planned, done int, coun
 	if err := os.WriteFile(filepath.Join(dir, c.ID+".json"), b, 0o644); err != nil {
 		fmt.Println("HARNESS-WARNING: cannot write evidence:", err)
 	}
+}
+
+// raceMain is the supplementary mode of a binary built with -race: runs are executed one after the other
+// (each run starts its own parallel goroutines), a marker names the run in progress on stderr, where the
+// race detector reports too (GORACE=halt_on_error=1 stops the process at the first report).  The caller
+// (bin/vcheck) reads the report; this function only runs the workload and reports verdict differences.
+func raceMain(c *Check, tier string, master uint64, tb *testing.T) int {
+	n := envInt("VERIF_RACE_RUNS", 60)
+	only := envInt("VERIF_ONLY", -1)
+	evals, viol := int64(0), 0
+	for i := 0; i < n; i++ {
+		if only >= 0 && i != only {
+			continue
+		}
+		fmt.Fprintf(os.Stderr, "RACE-RUN %d\n", i)
+		seed := SubSeed(master, c.ID+":race", i)
+		res, _ := execRun(c, tier, i, seed, NewTape(seed), "", false, tb)
+		if res.crashed != "" {
+			fmt.Println("HARNESS-ERROR:", res.crashed)
+			return ExitHarness
+		}
+		evals += res.counters["eval"]
+		for _, v := range res.viol {
+			viol++
+			fmt.Printf("RACE-VIOLATION run=%d class=%s %s\n", i, v.Class, v.Detail)
+		}
+	}
+	fmt.Printf("RACE-DONE runs=%d evaluations=%d verdict_differences=%d\n", n, evals, viol)
+	return ExitOK
 }
